@@ -92,6 +92,7 @@ def fold_nodes(ctx, model, method, nv, order):
         def f(ev, a, k):
             if not (isinstance(a[0], ArrV) and len(a[0].shape) == 1):
                 raise AnalysisError("the interpolant is constructed from something that is not a node vector")
+            k.all() if hasattr(k, "all") else None        # constructor options (extrapolate, ...) are judged by R11.8, not by the node fold
             captured.append((cls, a[0], a[1]))
             return NodeInterp(cls, a[0].shape[0])
         return f
